@@ -774,13 +774,13 @@ class Ghost:
         I = self.I
         lo, hi, fn = args[0], args[1], args[2]
         m = z3.Int(I.ctx.fresh_name("q"))
-        n0 = len(I.ctx.trace)
+        n0 = I.ctx.n_real
         self.raw_index = True
         try:
             body = I.call(fn, [SInt(m)], {}, node)
         finally:
             self.raw_index = False
-        if len(I.ctx.trace) != n0:
+        if I.ctx.n_real != n0:
             raise OutsideSubset("vc.forall: the body forked on the bound variable")
         bt = body.t if isinstance(body, SBool) else z3.BoolVal(bool(body))
         rng = z3.And(m >= zint(int_term(lo)), m < zint(int_term(hi)))
